@@ -95,11 +95,79 @@ def fwcall : P String := do
       | .error e => pure s!"{head} B err {showErr e}"
       | .ok r => pure s!"{head} B ok {showKw r}"
 
+
+/-- sl.hist  kind(P|D)  phases  <nstates> (slots)…  <initial state id>  <nops> ops…
+    ops:  `S i sid` (model i is now in state sid)  |  `W i file` (model i saved)  |  `L file sid` (fresh model in state sid, loaded)
+    → `H <nloads>` then per load  `X` (no such file) | `E objarray` | `E keyerror <k>` | `R <n> (slot value)…` -/
+def hist : P String := do
+  let kind ← tok
+  let phases ← lst tok
+  let states ← lst slots
+  let st := fun (i : Nat) => stateOf (states.getD i [])
+  let i0 ← nat
+  let ops ← lst (do
+    let t ← tok
+    if t == "S" then do let i ← nat; let sid ← nat; pure (Op.solve i (st sid), ([] : List String))
+    else if t == "W" then do let i ← nat; let f ← tok; pure (Op.save i f, [])
+    else if t == "L" then do let f ← tok; let sid ← nat; pure (Op.load f (st sid), (states.getD sid []).map (·.1))
+    else failure)
+  let sp := specOf kind phases
+  let p0 : Proc Float := { models := [st i0], files := [] }
+  let outs := loadOutcomes sp p0 (ops.map (·.1))
+  let names := (ops.filter (fun o => match o.1 with | .load _ _ => true | _ => false)).map (·.2)
+  let body := (outs.zip names).map (fun (o, ns) =>
+    match o with
+    | none => "X"
+    | some (.error .objectArray) => "E objarray"
+    | some (.error (.keyError k)) => s!"E keyerror {k}"
+    | some (.ok s') => s!"R {" ".intercalate (toString ns.length :: ns.map (fun n => s!"{n} {showVal (s' n)}"))}")
+  pure s!"H {" ".intercalate (toString outs.length :: body)}"
+
+open KawinV.SurrogateFit in
+def qOf (t : String) : Option Q :=
+  if t == "df" then some .drivingForce else if t == "diff" then some .diffusivity
+  else if t == "ic" then some .interfacial else if t == "curv" then some .curvature else none
+
+open KawinV.SurrogateFit in
+/-- sg.hist  kernel  normalize(T|F)  <nops> ops…      the fitting state of a surrogate through a history, with the hooks of the CODE
+    ops:  `T q cols npoints payload` (train quantity q: `cols` input columns, `npoints` rows, payload = an id of the data)  |  `Q q` (getter call)
+    → `N <n> flags…` (normalize flag of the surrogate's settings after each op)
+      `O` per quantity of the refit order `-` | `<normalize of the fit> <nodes> <payload>`      (the trained object)
+      `B` the same for the object rebuilt by toJson → fromJson with the constructor settings -/
+def sghist : P String := do
+  let kernel ← tok
+  let nrm ← bool
+  let ops ← lst (do
+    let t ← tok
+    if t == "T" then do
+      let qt ← tok; let cols ← nat; let np ← nat; let pay ← nat
+      match qOf qt with
+      | some q => pure (Op.train q ({ payload := pay, points := List.range np, cols := cols } : Train Nat Nat))
+      | none => failure
+    else if t == "Q" then do
+      let qt ← tok
+      match qOf qt with
+      | some q => pure (Op.query q)
+      | none => failure
+    else failure)
+  let s0 : Settings := { kernel := kernel, normalize := nrm }
+  let h := code Nat
+  let flags := (List.range ops.length).map (fun k => bstr (runS h (empty Nat Nat s0) (ops.take (k+1))).settings.normalize)
+  let s := runS h (empty Nat Nat s0) ops
+  let b := rebuild h s0 s
+  let showM := fun (x : Surr Nat Nat) => " ".intercalate (refitOrder.map (fun q =>
+    match x.models q with
+    | none => "-"
+    | some f => s!"{bstr f.settings.normalize} {f.nodes.length} {f.payload}"))
+  pure s!"N {" ".intercalate (toString flags.length :: flags)} O {showM s} B {showM b}"
+
 def handle (verb : String) : Option (P String) :=
   match verb with
   | "sl.rt" => some rt
   | "json.rt" => some jsonrt
   | "fw.call" => some fwcall
+  | "sl.hist" => some hist
+  | "sg.hist" => some sghist
   | _ => none
 
 end KawinV.Drv.C20
